@@ -211,12 +211,19 @@ class Program:
         if os.environ.get("RKVERIF_RAW") != "1":
             try:
                 from .inline import inline_new_helpers, known_names
-                from .canon import unrename, canonicalise
+                from .canon import unrename, canonicalise, unrename_locals
                 self.normalisation["unrenamed"] = unrename(self, known_names())
+                self.normalisation["locals_unrenamed"] = unrename_locals(self)
                 self.normalisation["canonicalised"] = canonicalise(self)
                 self.inlining = inline_new_helpers(self)
                 self.normalisation["inlining"] = self.inlining
                 if self.inlining.get("inlined_calls"):
+                    self.normalisation["canonicalised"] += canonicalise(self)
+                from .canon import inline_new_locals
+                self.normalisation["new_locals_inlined"] = inline_new_locals(self)
+                if self.normalisation["new_locals_inlined"]:
+                    for m_ in self.modules.values():
+                        ast.fix_missing_locations(m_.tree)
                     self.normalisation["canonicalised"] += canonicalise(self)
             except RecursionError:
                 self.inlining = {"enabled": False, "error": "recursion"}
